@@ -16,7 +16,7 @@ PID = "C20"
 GEN_GROUPS = ["ClientShape"]
 TARGETS = ["coq/Props/C20.vo", "coq/Props/C20_findings.vo", "coq/Model/Client.vo"]
 EXTRA_PROP_FILES = ["coq/Props/C20_findings.v"]
-CASES = {"quick": 700, "thorough": 6000}
+CASES = {"quick": 700, "thorough": 5000}
 CORR_HEADER = ("From Coq Require Import ZArith List String.\n"
                "From ACN Require Import Base.Num Model.Client.\nImport ListNotations.\n"
                "Open Scope string_scope.\nOpen Scope Z_scope.\n")
